@@ -408,6 +408,32 @@ def r7_dependencies_relinked(ctx, res):
     from .c05 import r5_relink
     r5_relink(ctx, res)
 
+def r8_borrowed_relations_are_declared_by_expand_lexicons(ctx, res):
+    """"expands over exactly the declared dependencies": a relation is borrowed only if the lexicon that DECLARES it is in the
+    scope handed to the query - in each relation query the relation table itself (not only source and target) is restricted by
+    the lexicon scope.  Without that filter a relation an unselected extension declares between two synsets of an expand
+    lexicon is borrowed too."""
+    from .c11 import REL_QUERIES
+    sc = ctx.schema
+    n = 0
+    for fname, (reltable, tgttable) in REL_QUERIES.items():
+        f = ctx.repo.func('_queries', fname)
+        for site in ctx.sites_of(f.key):
+            for v in site.variants:
+                st = v.stmt
+                if st is None:
+                    continue
+                st.lexicon_filters(sc)
+                occs = [o for o in st.occs if o.kind == 'table' and o.table == reltable]
+                n += 1
+                key = f'relation-rows-scoped:{fname}'
+                res.inst(key, site.loc, f'{[(o.alias, list(o.filters)) for o in occs]}')
+                if not occs or any(not o.filters for o in occs):
+                    res.find(key, site.loc, f'{fname} does not restrict the rows of {reltable} to the lexicon scope: a relation declared by a '
+                                            f'lexicon outside the scope (an unselected extension of an expand lexicon) is returned as well')
+    if n < 3:
+        raise AnalysisError(f'only {n} relation query variants examined')
+
 RULES = [
     ('C12-R1', r1_provenance, 10),
     ('C12-R2', r2_nullness, 2),
@@ -416,4 +442,5 @@ RULES = [
     ('C12-R5', r5_paths_through_placeholders, 8),
     ('C12-R6', r6_relation_lexicon_is_the_declaring_one, 3),
     ('C12-R7', r7_dependencies_relinked, 1),
+    ('C12-R8', r8_borrowed_relations_are_declared_by_expand_lexicons, 3),
 ]
